@@ -1,8 +1,8 @@
 SPECIFICATION Spec
 CONSTANTS
   LL = 3
-  MGens <- MGensSim
-  OGens <- OGensSim
+  MGens <- MGensAll
+  OGens <- OGensAll
   Scalars <- ScalarsAll
   MaxDepth = 4
   MaxBond = 6
